@@ -47,6 +47,14 @@ func init() {
 		QuickRuns: 1500, QuickSecs: 60, ThorRuns: 30000, ThorSecs: 900, Batch: 25,
 	})
 	Register(&Check{
+		ID: "C11", Engine: "netsim", Level: "fault_enumeration",
+		Real:      []string{"threshold.Scheme (KeyGen/Sign entry paths, result/ctx select)", "disc.Member", "disc.SilentSynchronizer", "rbc.Receiver", "msg.Box", "mpc/bls TBLS.KeyGen", "mpc/ps TPS.KeyGen"},
+		Stub:      append([]string{"MPC backend (scripted, lock-step rounds) in part of the runs"}, e1Stub...),
+		Rule:      "runs 0..N-1 enumerate, on the canonical schedule, for 8 base sessions (scripted/BLS/PS x loud/silent x KeyGen, scripted Sign) every peer P and every k: P silent after its k-th outgoing message (k=0: never shows up), and every single withheld message (enumeration indices beyond the traffic of the session are skipped); further runs draw crash point / withheld message / cancellation step / unusable stored data under seeded schedules for n=2..4; distinct = distinct (base, fault, position, outcome, schedule fingerprint); non-trivial = the fault fired while session traffic was in flight",
+		Assume:    []string{"links are reliable FIFO until the fault", "a crashed node's own call is not judged"},
+		QuickRuns: 4200, QuickSecs: 100, ThorRuns: 60000, ThorSecs: 900, Batch: 60,
+	})
+	Register(&Check{
 		ID: "C13", Engine: "netsim",
 		Real:      []string{"threshold.Scheme (rbcEncoding, membership topic hash)", "disc.Member (tag/view encoding)", "rbc.Receiver", "msg.Box", "mpc/bls TBLS (StoredData / PublicParams ASN.1, Verifier)"},
 		Stub:      append([]string{"MPC backend (scripted, rounds 0..127) in part of the runs"}, e1Stub...),
